@@ -473,7 +473,23 @@ class SymInt(_SymNum):
         v = z3.simplify(self.t)
         if z3.is_int_value(v):
             return v.as_long()
-        raise Unsupported("symbolic integer used where a concrete index is required: %s" % self.t)
+        if not active():
+            raise Unsupported("symbolic integer used where a concrete index is required: %s" % self.t)
+        # concretise under the path condition: pick a model value and branch on it (forks over the
+        # finitely many values the path allows; pruned at once when the value is determined)
+        e = cur()
+        for _ in range(64):
+            s = z3.Solver()
+            s.set("timeout", e.branch_timeout_ms)
+            for a in e.assumptions:
+                if not _has_quantifier(a):
+                    s.add(a)
+            if s.check() != z3.sat:
+                raise Infeasible()
+            val = s.model().eval(self.t, model_completion=True)
+            if e.branch(self.t == val):
+                return val.as_long()
+        raise Unsupported("symbolic integer with too many possible values used as an index: %s" % self.t)
 
     __int__ = __index__
 
